@@ -120,7 +120,7 @@ func pointerFaultCase(flavour, which string, n int, a, b uint64) {
 	_ = run.st.Sync(ctx)
 	failed := 0
 	core.Fault = func(w memds.Write) bool {
-		if failed == 0 && len(w.Ops) == 1 && w.Ops[0].Val != nil && strings.HasSuffix(w.Ops[0].Key, "/"+which) {
+		if failed == 0 && len(w.Ops) == 1 && strings.HasSuffix(w.Ops[0].Key, "/"+which) { // a Put of the pointer, or (wipe) its Delete
 			failed++
 			return true
 		}
@@ -155,6 +155,13 @@ func pointerFaultCase(flavour, which string, n int, a, b uint64) {
 		return hd, tl, between
 	}
 	h1, t1, b1 := resolve(run.st)
+	if h1 == "none" && t1 == "none" && b == uint64(n)+1 {
+		// wiped: the chain goes on (appending the continuation makes Head advance to the new tip)
+		_ = run.st.Append(ctx, run.chain[n:n+2]...)
+		_ = run.st.Sync(ctx)
+		h1, t1, b1 = resolve(run.st)
+		h1 = "wiped+" + h1
+	}
 	restart := "ok"
 	if err := run.st.Stop(ctx); err != nil {
 		restart = "stoperr"
@@ -357,6 +364,8 @@ func runC06(tier string, r *rng) {
 		pointerFaultCase(fl, "tail", 10, 1, 5)
 		pointerFaultCase(fl, "head", 10, 6, 11)
 		pointerFaultCase(fl, "tail", 10, 1, 10)
+		pointerFaultCase(fl, "head", 10, 1, 11) // whole chain: the wipe deletes both pointer keys
+		pointerFaultCase(fl, "tail", 10, 1, 11)
 	}
 	n, nf := 25, 40
 	if tier == "thorough" {
